@@ -3,6 +3,8 @@ package progress
 import (
 	"sync/atomic"
 	"time"
+
+	"github.com/form3tech-oss/f1/v2/internal/verifhook"
 )
 
 type IterationDurationsSnapshot struct {
@@ -35,6 +37,7 @@ type IterationDurations struct {
 
 func (i *IterationDurations) Add(nanoseconds int64) {
 	i.sum.Add(nanoseconds)
+	verifhook.Yield("ps.add.sum", i, nanoseconds)
 	i.count.Add(1)
 
 	if nanoseconds > i.max.Load() {
@@ -101,8 +104,11 @@ func (d *DurationStats) Record(nanoseconds int64) {
 
 func (d *DurationStats) CollectLifetime() (IterationDurationsSnapshot, IterationDurationsSnapshot) {
 	running := d.running.Snapshot()
+	verifhook.Yield("ps.collect.read", d, 0)
 	d.lifetime.Update(&d.running)
+	verifhook.Yield("ps.collect.merged", d, 0)
 	d.running.Reset()
+	verifhook.Yield("ps.collect.reset", d, 0)
 
 	return running, d.lifetime.Snapshot()
 }
